@@ -69,7 +69,7 @@ func (c *chacha20poly1305) openGeneric(dst, nonce, ciphertext, additionalData []
 	writeUint64(p, len(ciphertext))
 
 	ret, out := sliceForAppend(dst, len(ciphertext))
-	if alias.InexactOverlap(out, ciphertext) {
+	if alias.InexactOverlap(out, ciphertext) || alias.AnyOverlap(out, tag) {
 		panic("chacha20poly1305: invalid buffer overlap of output and input")
 	}
 	if alias.AnyOverlap(out, additionalData) {
